@@ -106,14 +106,52 @@ def _work_ce(name):
     return out
 
 
+def _work_23(name):
+    V = common.Verdict("C08", "quick", 0)
+    V.known = {}
+    out = {"name": name, "viol": [], "inconc": [], "broke": [], "obl": 0, "dis": 0, "pairs": 0, "same_ir": False, "ref": None}
+    try:
+        tc = _fn_text(_G["k23"], name)
+        tb = _fn_text(_G["ce_ref20"], name)
+        if tc is None or tb is None:
+            return out
+        if tc == tb:
+            out["same_ir"] = True
+            return out
+        # clang 14 folds `if (std::is_constant_evaluated())` to the constant-evaluation arm under -std=c++2b (libstdc++ implements it
+        # with `if consteval` there, which the front end's condition folding evaluates as true): the c++2b build then *selects the abacus
+        # algorithm at run time*. The property fixes the value per selected algorithm, so such a wrapper is compared with the abacus build.
+        sq20 = ("@sqrt" in tb) or ("llvm.sqrt" in tb)
+        sq23 = ("@sqrt" in tc) or ("llvm.sqrt" in tc)
+        ref = _G["ce_ref17a"] if (sq20 and not sq23) else _G["ce_ref20"]
+        out["ref"] = ref.config
+        if name not in ref.built.entries:
+            return out
+        rc = _G["k23"].run(name)
+        rr = ref.run(name)
+        if name not in SKIP_EQUIV:
+            out["pairs"] = lib.check_equiv(V, rc, rr, "-std=c++2b and %s builds return the same value" % ("-std=c++20" if ref.config == "K20" else "abacus (c++17)"),
+                                           site=rc.ent.api or name)
+    except Broken as e:
+        out["broke"].append("%s [K23]: %s" % (name, e))
+    except Infeasible:
+        out["broke"].append("%s [K23]: no feasible path" % name)
+    out["viol"] = V.violations
+    out["inconc"] += V.inconclusive
+    out["broke"] += V.broken
+    out["obl"], out["dis"] = V.obligations, V.discharged
+    return out
+
+
 def const_eval_arms(V, tier):
     """(f) the arms selected by std::is_constant_evaluated(): compiled as ordinary code (configuration K20C) and compared with the
     run-time arms by summary equivalence - with K20 where no square root is involved, with the abacus build K17A where one is
     (the property lets the algorithm differ, not the value for a given algorithm)"""
     try:
         from concurrent.futures import ThreadPoolExecutor
-        with ThreadPoolExecutor(3) as ex:
-            fs = {k: ex.submit(lib.Ctx, c, [], None, False, (), True) for k, c in (("ce", "K20C"), ("ce_ref20", "K20"), ("ce_ref17a", "K17A"))}
+        with ThreadPoolExecutor(4) as ex:
+            fs = {k: ex.submit(lib.Ctx, c, [], None, False, (), True) for k, c in (("ce", "K20C"), ("ce_ref20", "K20"), ("ce_ref17a", "K17A"),
+                                                                                   ("k23", "K23"))}
             for k, f in fs.items():
                 _G[k] = f.result()
     except Broken as e:
@@ -139,6 +177,25 @@ def const_eval_arms(V, tier):
                                   "against_abacus_build": sorted(o["name"] for o in compared if o["ref"] == "K17A")[:40]}
     if len(names) < 250:
         V.broke("constant-evaluation arms: only %d wrappers" % len(names))
+    # -std=c++2b (the c++23 feature-test branches of utility_cxx20.h) against -std=c++20
+    names23 = sorted(n for n in _G["k23"].built.entries if n.startswith("w_") and n in _G["ce_ref20"].built.entries)
+    with ctx.Pool(min(16, os.cpu_count() or 1)) as pool:
+        outs = pool.map(_work_23, names23, chunksize=2)
+    same = sum(1 for o in outs if o["same_ir"])
+    for o in outs:
+        V.obligations += o["obl"]
+        V.discharged += o["dis"]
+        for w in o["broke"]:
+            V.broke(w)
+        for w in o["inconc"]:
+            V.inconc(w)
+        for v in o["viol"]:
+            V.violation(v["kind"], v["site"], v["text"], v.get("replay"))
+    V.oblige(True, same)
+    V.cover["cxx23_vs_cxx20"] = {"wrappers": len(names23), "identical_ir": same, "compared_by_summary_equivalence": sum(1 for o in outs if o["ref"]),
+                                 "abacus_selected_at_run_time_by_the_c++2b_build": sorted(o["name"] for o in outs if o["ref"] == "K17A")}
+    if len(names23) < 250:
+        V.broke("c++2b build: only %d wrappers" % len(names23))
 
 
 def ast_rules(V, cfg):
@@ -285,6 +342,8 @@ def run(tier, seed):
             "std::is_constant_evaluated() / __builtin_is_constant_evaluated() to true, so the arms a constant evaluation takes are compiled as "
             "ordinary code; a wrapper whose IR is identical in K20 and K20C has no such arm, every other one is compared by summary equivalence "
             "with the run-time build that selects the same square-root algorithm (K20, or the abacus build K17A for sqrt, hypot, asin, acos - the "
-            "loop enters as its verified isqrt summary on both sides). GCC/Clang code generators are trusted.")
+            "loop enters as its verified isqrt summary on both sides). (g) -std=c++2b against -std=c++20 the same way (wrappers for which clang 14's "
+            "c++2b build selects the abacus algorithm at run time - a front-end quirk with libstdc++'s `if consteval` - are compared with the abacus "
+            "build). GCC/Clang code generators are trusted.")
     return V.finish("other", expl, "./fx check C08 --tier %s" % tier,
                     extra={"wrappers_compared": len(names), "joint_path_pairs": pairs, "fmuladd_sites_seen": fma_total, "configs": ["K17", "K17A", "K20"]})
